@@ -52,21 +52,21 @@ type Obligation struct {
 
 // Ctx is handed to every rule.
 type Ctx struct {
-	Repo   string
-	Tier   string
-	Prop   string
-	Fset   *token.FileSet
-	Pkgs   map[string]*packages.Package // keyed by path relative to module root ("pkg/sam", "cmd", ".")
-	All    []*packages.Package          // every loaded package incl. dependencies
-	Prog   *ssa.Program
-	SSA    map[string]*ssa.Package
-	Obs    []*Obligation
-	Notes  []string
-	Counts map[string]int // measured counters for the evidence file
-	Assume []string
-	Explain []string
-	Samples []interface{}
-	start  time.Time
+	Repo      string
+	Tier      string
+	Prop      string
+	Fset      *token.FileSet
+	Pkgs      map[string]*packages.Package // keyed by path relative to module root ("pkg/sam", "cmd", ".")
+	All       []*packages.Package          // every loaded package incl. dependencies
+	Prog      *ssa.Program
+	SSA       map[string]*ssa.Package
+	Obs       []*Obligation
+	Notes     []string
+	Counts    map[string]int // measured counters for the evidence file
+	Assume    []string
+	Explain   []string
+	Samples   []interface{}
+	start     time.Time
 	funcDecls map[*types.Func]*ast.FuncDecl
 	declPkg   map[*types.Func]*packages.Package
 }
@@ -262,9 +262,9 @@ func (c *Ctx) Note(format string, args ...interface{}) {
 	c.Notes = append(c.Notes, fmt.Sprintf(format, args...))
 }
 
-func (c *Ctx) Count(name string, n int)  { c.Counts[name] += n }
-func (c *Ctx) Assumption(s string)       { c.Assume = append(c.Assume, s) }
-func (c *Ctx) Explanation(s string)      { c.Explain = append(c.Explain, s) }
+func (c *Ctx) Count(name string, n int) { c.Counts[name] += n }
+func (c *Ctx) Assumption(s string)      { c.Assume = append(c.Assume, s) }
+func (c *Ctx) Explanation(s string)     { c.Explain = append(c.Explain, s) }
 func (c *Ctx) Sample(v interface{}) {
 	if len(c.Samples) < 12 {
 		c.Samples = append(c.Samples, v)
